@@ -83,7 +83,9 @@ VARS = ["x", "n", "user-name", "v1"]
 FUNCS = ["FOO", "NUMBER", "F-1", "A_B"]
 TEXT_WORDS = ["hello", "world", "x", "é", "日本", "😀", "a.b", "1 2", "\"q\"", "it's", "-dash", "#hash", "=eq", "tab\there",
               "[br", "*st", ".dot", "\\n", "$v", "(p)", ":", ","]
-STR_CONTENTS = ["", "a", "é", "x y", "\\\\", "\\\"", "\\u0041", "\\U01F600", "{", "}", "{}", "  ", "#", "->", "😀"]
+STR_CONTENTS = ["", "a", "é", "x y", "\\\\", "\\\"", "\\u0041", "\\U01F600", "{", "}", "{}", "  ", "#", "->", "😀",
+                # lower-case and mixed-case hex digits, escapes next to each other and next to text
+                "\\u00e9", "\\U01f602", "\\u00Ff", "\\uabcd", "\\U00aBcD", "a\\u00e9b", "\\u00e9\\u00E9"]
 NUMS = ["0", "1", "-1", "1.5", "-0.0", "007", "12345678901234567890", "3.14159"]
 
 
@@ -441,7 +443,7 @@ def g2_case(rng, depth=3, nlayouts=1, plain_first=True):
 # G3: mutation
 
 MUT_ALPHABET = ["é", "€", "😀", "\r", "\r\n", "\t", "{", "}", "\"", "\\", "\n", " ", "#", "-", ".", "[", "*", "=", "(", ")",
-                "\\u", "\\U", "$", ":", ",", "->", "a", "0"]
+                "\\u", "\\U", "$", ":", ",", "->", "a", "0", "\ufeff"]
 
 
 def g3_mutate(rng, src, n=1):
@@ -467,6 +469,24 @@ def g3_prefixes(src):
     """every char-boundary prefix"""
     for i in range(len(src) + 1):
         yield src[:i]
+
+
+# ----------------------------------------------------------------------------------------------
+# G7: width - very many ITEMS of one kind next to each other (a loop written as recursion, a counter of a narrow
+# type, quadratic behaviour show up only at such sizes); judged on the implementation only
+
+def g7_wide(n=400000):
+    yield "# c\n" * n
+    yield ("#\n##\n### x\n# y\n") * (n // 4)
+    yield "\n" * n + "k = v\n"
+    yield "# c\n" * (n // 2) + "k = v\n" + "# d\n" * (n // 2)
+    yield "".join("k%d = v\n" % i for i in range(n // 8))
+    yield "k = v\n" + "".join("    .a%d = w\n" % i for i in range(n // 8))
+    yield "k =\n" + "    line\n" * (n // 4)
+    yield "k = " + "{\"a\"}" * (n // 8) + "\n"
+    yield "k = { $x ->\n" + "".join("    [v%d] w\n" % i for i in range(n // 8)) + "   *[o] z\n    }\n"
+    yield "k = { F(" + ", ".join(["1"] * (n // 8)) + ") }\n"
+    yield "junk line\n" * (n // 8)
 
 
 # ----------------------------------------------------------------------------------------------
